@@ -462,7 +462,11 @@ impl<'b, 'a: 'b> FmtVisitor<'a> {
                 }
             }
             // Module is not inline, but should be skipped.
-            ast::ItemKind::Mod(..) if contains_skip(&item.attrs) => false,
+            ast::ItemKind::Mod(..) if contains_skip(&item.attrs) => {
+                filtered_attrs = filter_inline_attrs(&item.attrs, item.span());
+                self.push_skipped_with_span(filtered_attrs.as_slice(), item.span(), item.span());
+                false
+            }
             // Module is not inline and should not be skipped. We want
             // to process only the attributes in the current file.
             ast::ItemKind::Mod(..) => {
